@@ -815,7 +815,7 @@ pub fn run(out_prefix: &str, shards: usize, family: &str, seed: u64, scale: usiz
                 // a few large collections: more than 100 patterns (the automatic kind
                 // switches), more than 256 pattern ids
                 let pats = if it % 6 == 5 {
-                    let n = [120usize, 300][(it / 6) % 2];
+                    let n = [100usize, 101, 120, 300][(it / 6) % 4];
                     (0..n).map(|k| { let l = rg.gen_range(2..=4); let mut w: Vec<u8> = (0..l).map(|_| b'a' + rg.gen_range(0..5u8)).collect(); if k % 7 == 0 { w.push(b'a' + (k % 26) as u8); } w }).collect()
                 } else { gen::random_pats(&mut rg, 8, 6) };
                 let ci = rg.gen_range(0..3) == 0;
